@@ -116,6 +116,14 @@ impl<'a, 'tcx> Mx<'a, 'tcx> {
             ("s", J::s(shown)),
             ("ty", J::s(ty.to_string())),
         ];
+        if let Const::Unevaluated(uv, _) = c.const_ {
+            if let Some(pidx) = uv.promoted {
+                if uv.def.is_local() {
+                    // the promoted body itself is dumped as `<owner>::{promoted#i}` (see dump_mir)
+                    v.push(("promoted", J::s(format!("{}::{{promoted#{}}}", def_path(self.tcx, uv.def), pidx.as_usize()))));
+                }
+            }
+        }
         if let ty::FnDef(did, args) = ty.kind() {
             v.push(("fn", J::s(def_path(self.tcx, *did))));
             v.push(("gargs", J::s(format!("{:?}", args))));
@@ -427,6 +435,22 @@ pub fn dump_mir(tcx: TyCtxt<'_>) -> J {
         }
         let body: &mir::Body<'_> = tcx.optimized_mir(owner.to_def_id());
         out.push(dump_body(tcx, owner, body));
+        // promoted constants of this body (`&(4..=6)`, `&[..]`): small bodies without arguments
+        let path = def_path(tcx, owner.to_def_id());
+        for (i, pb) in tcx.promoted_mir(owner.to_def_id()).iter_enumerated() {
+            let j = dump_body(tcx, owner, pb);
+            if let J::Obj(mut fields) = j {
+                for f in fields.iter_mut() {
+                    if f.0 == "path" {
+                        f.1 = J::s(format!("{}::{{promoted#{}}}", path, i.as_usize()));
+                    }
+                    if f.0 == "kind" {
+                        f.1 = J::s("Promoted");
+                    }
+                }
+                out.push(J::Obj(fields));
+            }
+        }
     }
     J::Arr(out)
 }
